@@ -48,6 +48,8 @@ for d in sorted(glob.glob(f'{V}/seeded/*/meta.json')):
         f2 = 'suite: ' + (', '.join(fin.get('suite_failures', [])) or 'compile error')
     else:
         f2 = '(not re-run yet)'
+    if m.get('final_note'): f2 += ' — ' + esc(m['final_note'])
+    if m.get('ported'): f2 += ' — ' + esc(m['ported'])
     seed.append('| %s | %s | %s | %s | %s |' % (pid, esc(m['summary']), esc(m['trigger'])[:400], '<br>'.join(first), f2))
 mut = ['| id | change | suite | checks |', '|---|---|---|---|']
 if os.path.exists(f'{V}/tools/mutants.json'):
